@@ -116,6 +116,15 @@ func c06Harness(cfg *Cfg) func(x *mc.Exec) {
 	}
 	cks := []ck{{"gzip", nil}, {"zlib", nil}, {"zlibdict", dict20}, {"zlibdict", d40}}
 	small := []byte("hello, hello, hello world\n")
+	capCache := map[string][]byte{}
+	capContent := func(kind string, n int) []byte {
+		b, ok := capCache[kind]
+		if !ok {
+			b = pieces.Make(kind, 70000, cfg.Seed)
+			capCache[kind] = b
+		}
+		return b[:n]
+	}
 	return func(x *mc.Exec) {
 		part := x.Choose(2, "part")
 		if part == 0 {
@@ -216,11 +225,24 @@ func c06Harness(cfg *Cfg) func(x *mc.Exec) {
 			return
 		}
 		// payload x level x pattern x reuse x kind
-		c := cks[x.Choose(len(cks), "kind")]
-		lvl := x.Choose(12, "level") - 2
-		p := payloads[x.Choose(len(payloads), "payload")]
-		pat := x.Choose(len(patNames), "pattern")
-		reuse := x.Choose(2, "reuse") == 1
+		var c ck
+		var lvl, pat int
+		var p pieces.Piece
+		var reuse bool
+		if x.Choose(2, "payload-class") == 1 {
+			// payloads aimed at the compressor rather than at the container (the block token cap of C01): through the
+			// gzip and zlib Writers at the levels that run fastgo's own match finders, read back by the standard library
+			c = cks[x.Choose(2, "kind")]
+			lvl = 1 + x.Choose(2, "level")
+			d, nm := tokenCapData(x, cfg.Seed, capContent)
+			p = pieces.P("token-cap("+nm+")", d)
+		} else {
+			c = cks[x.Choose(len(cks), "kind")]
+			lvl = x.Choose(12, "level") - 2
+			p = payloads[x.Choose(len(payloads), "payload")]
+			pat = x.Choose(len(patNames), "pattern")
+			reuse = x.Choose(2, "reuse") == 1
+		}
 		if pat == 4 && len(p.Data) > 20000 {
 			return
 		}
